@@ -87,4 +87,4 @@ Extraction "model"
   q_gen_radii_uniform q_gen_angles q_radii_valid_b q_close_b q_increasing_b q_midpoints_b
   q_stop_decision q_k_dot q_k_l1 q_k_l2sq q_k_inf threads_on_level
   find_race observed_write_ok observed_read_ok mkDims
-  gen_residual_give gen_residual_take gen_smoother_give gen_smoother_take gen_ext_smoother_give gen_ext_smoother_take.
+  gen_residual_give gen_residual_take gen_direct_give_assembly gen_direct_take_assembly gen_smoother_give gen_smoother_take gen_ext_smoother_give gen_ext_smoother_take.
